@@ -55,7 +55,11 @@ def fresh_wavefront(ptype, empty=False):
     from lentil.field import Field
     w = lentil.Wavefront(op.WL, pixelscale=op.DX, focal_length=1.0, ptype=ptype)
     # empty: a legal wavefront without any Field left (product of non-overlapping apertures, image tilted off the array)
-    w.data = [] if empty else [Field(data=np.ones((3, 3), dtype=complex))]
+    if empty == 'off':
+        # it carries a Field, but one tilted so far that nothing of it lands on any output plane
+        w.data = [Field(data=np.ones((3, 3), dtype=complex), tilt=[lentil.Tilt(x=0.05, y=-0.05)])]
+    else:
+        w.data = [] if empty else [Field(data=np.ones((3, 3), dtype=complex))]
     w.shape = (3, 3)
     return w
 
@@ -65,6 +69,10 @@ def make_plane(action, **kw):
     import lentil
     import warnings
     kind, name = action.split('_', 1)
+    if kw.pop('segmented', False) and (kind == 'Mul' or name in ('Plane', 'Pupil', 'Image')):
+        # the same plane with its aperture split into two segments (a 3-D mask): types and refusals do not depend on the mask
+        seg = np.zeros((2, 3, 3)); seg[0][:, :2] = 1; seg[1][:, 2:] = 1
+        kw['mask'] = seg
     if kind == 'Mul':
         return lentil.Plane(amplitude=A.copy(), ptype=name, **kw)
     if name == 'Plane':
@@ -120,7 +128,7 @@ def plane_for(action, reuse):
     if not reuse:
         return make_plane(action)
     if action not in _REUSED:
-        _REUSED[action] = make_plane(action)
+        _REUSED[action] = make_plane(action, segmented=True)      # the reused-object paths are also the segmented-plane paths
     return _REUSED[action]
 
 
@@ -180,7 +188,7 @@ def step_check(M, node, w, action, path, acc, fft=False):
             acc.violation(f'{site}:raises:{type(exc).__name__}', case, f'documented refusal must be TypeError, got {exc!r}')
         if wdigest(w) != before:
             acc.violation(f'{site}:refusal-mutates-wavefront', case, 'refused operation changed the wavefront')
-        if plane is not None and pdigest(make_plane(action)) != pdigest(plane):
+        if plane is not None and pdigest(make_plane(action, segmented=path.get('reuse', False))) != pdigest(plane):
             acc.violation(f'{site}:refusal-mutates-plane', case, 'refused operation changed the plane')
         if plane is not None and action[4:] not in ('Rotate', 'Flip'):
             # the cell is forbidden whatever else is wrong with the operands: a plane whose pixel scale also disagrees
@@ -263,6 +271,7 @@ def run(tier, seed, acc, procs=None):
             tasks.append(('t_paths', {'model': share, 'n0': n0, 'first': a, 'depth': depth}))
             tasks.append(('t_paths', {'model': share, 'n0': n0, 'first': a, 'depth': depth - 1, 'empty': True}))
             tasks.append(('t_paths', {'model': share, 'n0': n0, 'first': a, 'depth': depth - 1, 'reuse': True}))
+            tasks.append(('t_paths', {'model': share, 'n0': n0, 'first': a, 'depth': depth - 2, 'empty': 'off'}))
     acc.states += len(M['nodes'])
     acc.transitions += M['edges']
     acc.cls('tlc-distinct-states', M['tlc_states'][1])
